@@ -3,6 +3,7 @@ package main
 import (
 	"fmt"
 	"os"
+	"runtime/debug"
 	"runtime/pprof"
 	"strconv"
 	"strings"
@@ -14,6 +15,7 @@ func usage() {
 }
 
 func main() {
+	debug.SetGCPercent(400)
 	if len(os.Args) < 2 {
 		usage()
 	}
@@ -85,16 +87,16 @@ func main() {
 			}
 			for _, o := range jr.Oblig {
 				if o.Status == "sat" && o.Kind != "cover" || o.Status == "unknown" {
-					fmt.Printf("  %-7s %-40s %-8s %5d ms path=%v model: %v %s\n", o.Kind, o.Label, o.Status, o.Ms, o.Path, o.model, o.detail)
+					fmt.Printf("  %-7s %-40s %-8s %5d ms path=%v model: %v %s\n", o.Kind, o.Label, o.Status, o.Ms, o.Path, o.Model, o.Detail)
 				}
 			}
 			fmt.Println("funcs:", strings.Join(jr.Funcs, " "))
 			return
 		}
 		for _, o := range jr.Oblig {
-			fmt.Printf("  %-7s %-40s %-8s %5d ms  nodes=%d %s %s\n", o.Kind, o.Label, o.Status, o.Ms, o.Size, o.Pos, o.detail)
+			fmt.Printf("  %-7s %-40s %-8s %5d ms  nodes=%d %s %s\n", o.Kind, o.Label, o.Status, o.Ms, o.Size, o.Pos, o.Detail)
 			if o.Status == "sat" && o.Kind != "cover" {
-				fmt.Printf("      model: %v\n      traces: %v\n", o.model, o.traces)
+				fmt.Printf("      model: %v\n      traces: %v\n", o.Model, o.Traces)
 			}
 		}
 		fmt.Println("funcs:", strings.Join(jr.Funcs, " "))
@@ -110,11 +112,27 @@ func main() {
 			os.Exit(2)
 		}
 		fn.WriteTo(os.Stdout)
+	case "shard":
+		os.Exit(cmdShard(os.Args[2:]))
 	case "check":
 		os.Exit(cmdCheck(os.Args[2:]))
 	case "replay":
 		os.Exit(cmdReplay(os.Args[2:]))
 	default:
 		usage()
+	}
+}
+
+func init() {
+	if len(os.Args) > 1 && os.Args[1] == "family" {
+		for n := 3; n <= 5; n++ {
+			for K := 2; K <= 3; K++ {
+				if n == 5 && K == 3 {
+					continue
+				}
+				fmt.Printf("n=%d K=%d canonical=%d allrot=%d\n", n, K, len(latticeRings(n, K, false)), len(latticeRings(n, K, true)))
+			}
+		}
+		os.Exit(0)
 	}
 }
